@@ -134,7 +134,7 @@ func init() {
 		Rule: "case = (matcher, filter configuration, complete first message) from per-protocol generators: well-formed messages over the full field ranges, " +
 			"single-field corruptions, and filter configurations; oracle: real matcher verdict on the complete message == independent reference predicate " +
 			"(want=true requires a match; want=false accepts no-match, error or need-more). non-trivial = the reference did not abstain; " +
-			"distinct = hash(matcher, class, config, input)",
+			"distinct = hash(matcher, class, config, input). every fourth case gives the string options that the matcher documents as placeholder-capable (winbox, rdp, regexp, dns rules, ip ranges, openvpn) as {env.NAME} placeholders of variables set in the process: same verdict expected.",
 		Assumptions: []string{
 			"reference predicates are hand-written from the wire definitions cited by the modules (DESIGN.md appendix B); agreement shows consistency with that reading",
 			"inputs for which the reference is not authoritative are abstentions (counted, not judged)",
